@@ -13,6 +13,7 @@
 //	   parts into a PartSet made from the signed header, against a set-of-indices reference model; the
 //	   completed set reads back and decodes to the proposer's block on both reassembly paths;
 //	C. merkle.SimpleProof.Verify for every (index,total) up to a bound and every single-aunt tamper;
+//	F. proposer-chosen (non-uniform) chunkings of the block bytes, incl. empty parts (chunkings.go);
 //	E. the three hashed lists for every length 0..12 (17) and every position (lists.go);
 //	D. the same reassembly inside a real ConsensusState (synchronous driver): pre-states that know more or less
 //	   of a block A x triggers that make another block B the one to fetch x BFS over all deliveries of B's parts
@@ -197,6 +198,9 @@ func replay(r *vk.Run) {
 		n := len(pc.genuine)
 		pc.linear(r)
 		pc.forgeriesAgainst(r, []int{0, 1, n / 2, n - 2, n - 1})
+	case rc.Phase == "chunkings":
+		// re-runs every chunking of the recorded block
+		checkChunkings(r, []blockCfg{rc.Block})
 	case rc.Phase == "lists":
 		// re-runs the list-commitment enumeration up to the recorded length
 		checkLists(r, rc.N)
@@ -393,6 +397,17 @@ func main() {
 	r.Set("consensus_reassembly_outcomes", dOutcomes)
 	lap("phase D (state machine)")
 
+	// ---------------- phase F: proposer-chosen (non-uniform) chunkings ----------------
+	fCfgs := []blockCfg{{1, 0, 0}, {2, 1, 1}, {3, 3, 2}}
+	if !r.Quick() {
+		fCfgs = cfgs
+	}
+	fSets, fDeliveries, fRefused := checkChunkings(r, fCfgs)
+	r.Set("chunking_sets", fSets)
+	r.Set("chunking_deliveries", fDeliveries)
+	r.Set("chunking_refusals", fRefused)
+	lap("phase F (chunkings)")
+
 	// ---------------- phase E: list commitments for every list length ----------------
 	eCases, eRoots := checkLists(r, r.Pick(12, 17))
 	r.Set("list_commitment_max_length", r.Pick(12, 17))
@@ -462,7 +477,7 @@ func main() {
 	r.Set("states", states)
 	r.Set("transitions", trans)
 	r.Set("traces_validated_against_impl", trans+int(deliveries))
-	r.Set("evaluations", st.variants+trans+int(deliveries)+mcases+shapeCases+eCases)
+	r.Set("evaluations", st.variants+trans+int(deliveries)+mcases+shapeCases+eCases+fDeliveries)
 	r.Set("distinct_nontrivial", st.distinctIDs+states)
 	r.Set("rule", "A: every variant block is built fresh; Block.Hash(), the part-set header, Data/Evidence/Commit hashes and ValidateBasic are computed by the real code and compared with a codec-independent dump of its content (non-trivial = distinct id); "+
 		"E: every list length 0..N x position x perturbation kind, roots by the real Txs.Hash/EvidenceList.Hash/Commit.Hash, injectivity over all lengths, plus the block-level clauses; "+
